@@ -12,6 +12,7 @@ CONSTANTS Comp = "hub_pro"
   NBuf = 0
   Gaps <- G_none
   Strict = FALSE
+  Busy = FALSE
   D = 2
 INIT Init
 NEXT Next
